@@ -230,6 +230,13 @@ static std::string krigeAll(Db* dbin, Db* dbout, Model* model, ANeigh* neigh, co
   o << "))";
   return o.str();
 }
+// a moving neighbourhood with an ISOTROPIC search ellipsoid. Without coefficients BiTargetCheckDistance measures exactly two
+// coordinates whatever the space dimension (out-of-range read in 1-D, horizontal distance in 3-D: C06's domain), so the
+// coefficients (all 1) are given explicitly outside 2-D.
+static NeighMoving* mkMoving(int ndim, int nmaxi, double radius, int nmini, bool flag_xvalid = false) {
+  VectorDouble coeffs; if (ndim != 2) coeffs = VectorDouble(ndim, 1.);
+  return NeighMoving::create(flag_xvalid, nmaxi, radius, nmini, 1, ITEST, coeffs);
+}
 static VectorInt allTargets(const Db* db) { VectorInt t; for (int i = 0; i < db->getSampleNumber(); i++) t.push_back(i); return t; }
 
 // ---------------------------------------------------------------------------------------------- mode 2
@@ -240,7 +247,7 @@ static std::string run_unique_moving(const Sx& c) {
   std::ostringstream o; o << "(";
   for (int pass = 0; pass < 2; pass++) {
     Db* dbin = makeDb(c[3], ndim, nfex); Db* dbout = makeDb(c[4], ndim, nfex); Model* model = makeModel(c[5], ndim, nvar);
-    ANeigh* neigh = pass == 0 ? (ANeigh*) NeighUnique::create() : (ANeigh*) NeighMoving::create(false, (int) c[6][1].i(), c[6][2].d(TEST), (int) c[6][0].i());
+    ANeigh* neigh = pass == 0 ? (ANeigh*) NeighUnique::create() : (ANeigh*) mkMoving(ndim, (int) c[6][1].i(), c[6][2].d(TEST), (int) c[6][0].i());
     if (pass == 0) o << driftsStr(model) << " ";
     KOpt k; k.c01dump = (pass == 0);
     o << krigeAll(dbin, dbout, model, neigh, k, allTargets(dbout), nvar, ndim) << (pass == 0 ? " " : "");
@@ -270,7 +277,7 @@ static std::string run_xvalid(const Sx& c) {
     delete db; delete model; delete neigh;
   }
   { // C: standard cross-validation in a moving neighbourhood holding every sample (the _xvalid exclusion path)
-    Db* db = makeDb(c[3], ndim, nfex); Model* model = makeModel(c[4], ndim, nvar); ANeigh* neigh = NeighMoving::create(false, 10000, TEST, 1);
+    Db* db = makeDb(c[3], ndim, nfex); Model* model = makeModel(c[4], ndim, nvar); ANeigh* neigh = mkMoving(ndim, 10000, TEST, 1);
     KOpt k; k.xvalid = true;
     o << krigeAll(db, db, model, neigh, k, allTargets(db), nvar, ndim) << " ";
     delete db; delete model; delete neigh;
@@ -331,7 +338,7 @@ static std::string run_block1(const Sx& c) {
     Db* dbin = makeDb(c[3], ndim, 0);
     DbGrid* dbout = DbGrid::create(c[4][0].vi(), c[4][1].vd(), c[4][2].vd());
     Model* model = makeModel(c[5], ndim, nvar);
-    ANeigh* neigh = c[6][0].i() == 0 ? (ANeigh*) NeighUnique::create() : (ANeigh*) NeighMoving::create(false, (int) c[6][2].i(), c[6][3].d(TEST), (int) c[6][1].i());
+    ANeigh* neigh = c[6][0].i() == 0 ? (ANeigh*) NeighUnique::create() : (ANeigh*) mkMoving(ndim, (int) c[6][2].i(), c[6][3].d(TEST), (int) c[6][1].i());
     KOpt k;
     if (pass == 1) { k.calcul = EKrigOpt::BLOCK; k.ndiscs = VectorInt(ndim, 1); }
     if (pass == 0) { o << driftsStr(model) << " ("; for (int i = 0; i < dbout->getSampleNumber(); i++) { o << "("; for (int d = 0; d < ndim; d++) o << (d ? " " : "") << sx_d(dbout->getCoordinate(i, d)); o << ")"; } o << ") "; }
@@ -349,7 +356,7 @@ static std::string run_colcok(const Sx& c) {
   defineDefaultSpace(ESpaceType::RN, ndim);
   VectorInt colvars = c[7].vi();
   int nt = (int) c[4][0][0].size(), n = (int) c[3][0][0].size();
-  auto mkneigh = [&]() { return c[6][0].i() == 0 ? (ANeigh*) NeighUnique::create() : (ANeigh*) NeighMoving::create(false, (int) c[6][2].i(), c[6][3].d(TEST), (int) c[6][1].i()); };
+  auto mkneigh = [&]() { return c[6][0].i() == 0 ? (ANeigh*) NeighUnique::create() : (ANeigh*) mkMoving(ndim, (int) c[6][2].i(), c[6][3].d(TEST), (int) c[6][1].i()); };
   std::ostringstream o; o << "(";
   { // A: collocated option
     Db* dbin = makeDb(c[3], ndim, nfex); Db* dbout = makeDb(c[4], ndim, nfex); Model* model = makeModel(c[5], ndim, nvar); ANeigh* neigh = mkneigh();
